@@ -53,6 +53,14 @@ M = {
  'c05-new': ('core/matcher.py', "                if isinstance(arg, wl.Arg.Object) and arg.is_new and self.obj_matcher.matches(arg.obj):", "                if isinstance(arg, wl.Arg.Object) and self.obj_matcher.matches(arg.obj):"),
  'c01-negint': ('backends/libwayland_debug_output/parse.py', "        int_re = r'(?P<int>-?\\d+)'", "        int_re = r'(?P<int>\\d+)'"),
  'c01-conn': ('backends/libwayland_debug_output/parse.py', "        conn_re = r'( \\<(?P<conn>\\w+)\\>)?'", "        conn_re = r'( \\<(?P<conn>\\d)\\>)?'"),
+ 'c17-literal': ('core/wl/arg.py', "            return color(fd_color, 'fd ' + str(self.value))", "            return '\\x1b[35mfd ' + str(self.value) + '\\x1b[0m'"),
+ 'c17-strip': ('frontends/tui/controller.py', "        second = '' if len(args) < 2 else no_color(args[1]).strip()", "        second = '' if len(args) < 2 else args[1].strip()"),
+ 'c17-space': ('core/util.py', "        if color is not None:\n            result += '\\x1b[' + color + 'm'", "        if color is not None:\n            result += ' \\x1b[' + color + 'm'"),
+ 'c17-matcherstrip': ('core/matcher.py', "    text = no_color(text).strip()\n    if text == '':", "    text = text.strip()\n    if text == '':"),
+ 'c18-assert': ('core/wl/object.py', "        assert obj_id > 0\n        self.connection", "        if obj_id <= 0: raise ValueError(obj_id)\n        self.connection"),
+ 'c18-cmd': ('frontends/tui/controller.py', "                self.out.error('Expected number after \\'~\\', got \\'' + tilde_split[1] + '\\'')\n                return", "                raise"),
+ 'c18-eofclose': ('backends/libwayland_debug_output/parse.py', "    def cleanup(self):\n        for conn_id in self.known_connections:", "    def cleanup(self):\n        for conn_id in sorted(self.known_connections)[1:]:"),
+ 'c18-matcher': ('core/matcher.py', "        except ValueError:\n            raise RuntimeError(text + ' is not a valid int')", "        except ValueError:\n            raise"),
 }
 name = sys.argv[1]
 f, old, new = M[name]
